@@ -91,6 +91,21 @@ class Check(Property):
             self.bump("history")
             out.append({"kind": "history", "seq": seq,
                         "ops": [{"op": "reset"}] + [{"op": "get_name", "s": s} for s in seq] + [{"op": "reset"}]})
+        # per-call case_sensitive overrides must not leak into later default-mode lookups of the same string
+        for _ in range(300 if self.tier == "quick" else 4000):
+            k = rng.choice(keys)
+            v = rng.choice([k.upper(), k.lower(), k.swapcase(), k.title(), k])
+            if rng.random() < 0.5:
+                v = rng.choice(P.prefix_keys) + v
+            if not (v.isidentifier() and v.isascii()):
+                continue
+            first = rng.choice([False, True])
+            self.bump("mode mix")
+            u1 = [[v, "1/1"]]
+            out.append({"kind": "modemix", "s": v, "first": first,
+                        "ops": [{"op": "reset"}, {"op": "parse_units", "u": u1, "cs": first, "as_delta": True},
+                                {"op": "parse_units", "u": u1, "as_delta": True},
+                                {"op": "parse_units", "u": u1, "cs": (not first), "as_delta": True}, {"op": "reset"}]})
         # compound expressions with delta substitution
         nm = P.nonmult
         for _ in range(400 if self.tier == "quick" else 5000):
@@ -121,6 +136,17 @@ class Check(Property):
             u = regs.fresh("float") if self.rng.random() < 0.15 or not hasattr(self, "_hreg") else self._hreg
             self._hreg = u
             return [{"ok": None}] + [capture(lambda s=s: u.get_name(s)) for s in c["seq"]] + [{"ok": None}]
+        if c["kind"] == "modemix":
+            if not hasattr(self, "_mixreg"):
+                self._mixreg = regs.fresh("fraction")
+            u = self._mixreg
+
+            def pu(cs=None):
+                def run():
+                    r = u.parse_units_as_container(c["s"], case_sensitive=cs)
+                    return [[k, frac_s(regs.to_frac(v))] for k, v in r.items()]
+                return capture(run)
+            return [{"ok": None}, pu(c["first"]), pu(None), pu(not c["first"]), {"ok": None}]
         if c["kind"] == "parse_units":
             u = self.reg(True)
             from .c01 import expr
@@ -136,6 +162,8 @@ class Check(Property):
                 capture(lambda: u.get_symbol(s))]
 
     def expect(self, c, mo):
+        if c["kind"] == "modemix":
+            return [{"ok": None}] + mo[1:-1] + [{"ok": None}]
         if c["kind"] == "history":
             return [{"ok": None}] + mo[1:-1] + [{"ok": None}]
         return mo
@@ -143,6 +171,8 @@ class Check(Property):
     def nontrivial(self, c, io):
         if c["kind"] in ("history", "parse_units"):
             return canon(c.get("seq") or c.get("u"))
+        if c["kind"] == "modemix":
+            return "mix:" + c["s"] + str(c["first"])
         return c["s"] + "|" + str(c["cs"])
 
     # ------------------------------------------------------------------ oracle
@@ -157,6 +187,25 @@ class Check(Property):
                 v += self.check_string(u, s, True, tag="after history " + repr(c["seq"]))
             return v
         if c["kind"] == "parse_units":
+            return v
+        if c["kind"] == "modemix":
+            # the default-mode answer after an overridden lookup equals the answer of an untouched registry
+            if not hasattr(self, "_mixo"):
+                self._mixo = regs.fresh("fraction")
+                self._mixfresh = regs.fresh("fraction")
+            u, f = self._mixo, self._mixfresh
+
+            def ans(reg_, cs=None):
+                try:
+                    return ("ok", str(reg_.parse_units(c["s"], case_sensitive=cs)))
+                except Exception as exc:  # noqa: BLE001
+                    return ("err", type(exc).__name__)
+            ans(u, c["first"])
+            got, want = ans(u), ans(f)
+            if got != want:
+                v.append(f"C08 {c['s']!r}: after parse_units(..., case_sensitive={c['first']}) the default lookup gives "
+                         f"{got}, an untouched registry gives {want}")
+            v += self.check_string(f, c["s"], True)
             return v
         cs = True if c["cs"] is None else c["cs"]
         if not hasattr(self, "_oracle_regs"):
